@@ -117,6 +117,32 @@ def make_hv_body(n, d, assume_pareto_opts=(False,)):
     return body
 
 
+def make_hv_lattice_body(n, d, L):
+    """integer lattice {0..L}^d with reference point (L,..,L): points ON the reference boundary included. The true dominated volume is
+    the number of unit cells below some point. Coordinates are enumerated through the explorer (finite, complete)."""
+    def body():
+        pts = []
+        for i in range(n):
+            p = [float(sx.choose(L + 1, f"p{i}_{j}")) for j in range(d)]
+            if pts and tuple(p) < tuple(pts[-1]):
+                sx.cur().abort()             # symmetry cut: lexicographic order; every input order is generated below
+            pts.append(p)
+        if n <= 3:
+            perm = sx.choose(list(itertools.permutations(range(n))), "input_order")
+            pts = [pts[i] for i in perm]
+        ap = False
+        nd = [q for q in pts if not any(all(a <= b for a, b in zip(o, q)) and o != q for o in pts)]
+        if len(nd) == len(pts) and len({tuple(q) for q in pts}) == len(pts):
+            ap = bool(sx.choose(2, "assume_pareto"))           # only legitimate when the input is a Pareto set
+        ref = [float(L)] * d
+        hv = wfg.compute_hypervolume(np.array(pts), np.array(ref), assume_pareto=ap)        # REAL code, real NumPy
+        want = sum(1 for cell in itertools.product(range(L), repeat=d) if any(all(q[j] <= cell[j] for j in range(d)) for q in pts))
+        sx.reach("computed")
+        assert abs(hv - want) < 1e-9, f"hypervolume {hv} != true dominated volume {want}: points {pts} reference {ref} assume_pareto={ap}"
+        return True
+    return body
+
+
 def hv_inf_body():
     """infinite reference coordinates / infinite points: the result must be inf when the dominated volume is"""
     d = sx.choose([2, 3], "d")
@@ -262,6 +288,8 @@ def obligations(tier):
                    require_reach=["computed"], describe="2-D hypervolume == inclusion-exclusion, n=3, all ties/duplicates/dominated points"),
         Obligation("hv-3d-n2", make_hv_body(2, 3, (False, True)), setup, CODE, bounds=dict(n=2, d=3), shard_depth=3, budget_s=900, classify=classify,
                    require_reach=["computed"], describe="3-D hypervolume (WFG), n=2"),
+        Obligation("hv-lattice-3d-n3", make_hv_lattice_body(3, 3, 3), setup, CODE, bounds=dict(n=3, d=3, lattice="{0..3}^3, reference (3,3,3) - boundary points included", input_orders="all"),
+                   shard_depth=4, budget_s=1500, classify=classify, require_reach=["computed"], describe="3-D hypervolume (WFG recursion) == cell count on the lattice, n=3"),
         Obligation("hv-infinite", hv_inf_body, setup, CODE, bounds=dict(n=2, d=[2, 3], coords="finite/-inf, reference finite/inf"), budget_s=300,
                    classify=classify, require_reach=["computed"], describe="infinite when it is"),
         Obligation("rank-2d-n3", make_rank_body(3, 2, False), setup, CODE, bounds=dict(n=3, d=2), shard_depth=4, budget_s=900, classify=classify,
